@@ -156,7 +156,102 @@ func main() {
 		}()
 	}
 	wg.Wait()
+
+	// Dependency closure: a property's check also verifies every proved (non-assumed) /repo function whose contract one of
+	// its units applies at a call site, transitively - otherwise a change inside such a callee would leave this property's
+	// check green although the property is broken (the callee's own property would notice, this one would not).
+	if *prop != "" && *unitFilter == "" && os.Getenv("GOVC_NOCLOSURE") == "" {
+		inProp := map[string]bool{}
+		for _, g := range units {
+			inProp[g.ct.Key] = true
+		}
+		frontier := units
+		for round := 0; round < 12 && len(frontier) > 0; round++ {
+			var added []*Gen
+			var keys []string
+			for _, g := range frontier {
+				for k := range g.calledKeys {
+					keys = append(keys, k)
+				}
+			}
+			sort.Strings(keys)
+			for _, k := range keys {
+				if inProp[k] {
+					continue
+				}
+				inProp[k] = true
+				ct := eng.cs.ByKey[k]
+				if ct == nil || ct.Assumed != "" {
+					continue
+				}
+				fn := eng.fnByKey[k]
+				if fn == nil {
+					if at := strings.Index(k, "@"); at > 0 {
+						fn = eng.fnByKey[k[:at]]
+					}
+				}
+				if fn == nil {
+					continue
+				}
+				if len(ct.Split) > 0 {
+					for i := range ct.Split {
+						g := eng.NewGen(fn, ct)
+						g.splitCase = i
+						g.inClosure = true
+						g.unit = fmt.Sprintf("%s#case%d", g.unit, i)
+						added = append(added, g)
+					}
+					continue
+				}
+				g := eng.NewGen(fn, ct)
+				g.splitCase = -1
+				g.inClosure = true
+				added = append(added, g)
+			}
+			var wg2 sync.WaitGroup
+			for _, g := range added {
+				g := g
+				wg2.Add(1)
+				sem <- struct{}{}
+				go func() {
+					defer wg2.Done()
+					defer func() { <-sem }()
+					defer func() {
+						if r := recover(); r != nil {
+							g.errs = append(g.errs, fmt.Sprintf("generator panic: %v\n%s", r, debug.Stack()))
+						}
+					}()
+					g.run()
+				}()
+			}
+			wg2.Wait()
+			units = append(units, added...)
+			frontier = added
+		}
+	}
 	genSecs := time.Since(genStart).Seconds()
+
+	// membership audit (GOVC_AUDIT=1): a proved (non-assumed) /repo contract that a unit of this property applies at a call
+	// site should itself be checked under the property - otherwise a change inside that callee is invisible to this check
+	if os.Getenv("GOVC_AUDIT") != "" && *prop != "" && *unitFilter == "" {
+		inProp := map[string]bool{}
+		for _, g := range units {
+			inProp[g.ct.Key] = true
+		}
+		seen := map[string]bool{}
+		for _, g := range units {
+			for k := range g.calledKeys {
+				base := k
+				if at := strings.Index(base, "@"); at > 0 {
+					base = base[:at]
+				}
+				if !inProp[k] && !inProp[base] && !seen[k] {
+					seen[k] = true
+					fmt.Printf("AUDIT property=%s: contract of %s is used (by %s) but the function is not checked under this property\n", *prop, shortUnit(k), g.unit)
+				}
+			}
+		}
+	}
 
 	if cmd == "dump" {
 		for _, g := range units {
@@ -184,7 +279,7 @@ func main() {
 			if *oblFilter != "" && !strings.Contains(o.Name, *oblFilter) {
 				continue
 			}
-			if *prop != "" && !obligationHasProp(g.ct, o, *prop) {
+			if *prop != "" && !g.inClosure && !obligationHasProp(g.ct, o, *prop) {
 				continue
 			}
 			jobs = append(jobs, job{g, o})
